@@ -112,6 +112,11 @@ def run(tier, seed):
                         'augmented assignment on a bare name that aliases a (numeric) parameter rebinds: ' + '; '.join(sorted(set(aug)))[:600]]
     rep.trusted = ['the frame / may-alias analysis in vlib/effects/frames.py']
 
-    def replayer(ob):
-        return None
-    return rep, replayer
+    from ..replay import args_native
+    from . import util
+    rep.bounded_is_supplementary = True
+    rep.add(util.native_ob('native:arguments-unchanged-and-repeatable', 'EoN/*:(public functions)', args_native.check,
+                           'about 85 calls of the public simulators, *_from_graph / *_pure_IC wrappers, direct ODE entry points (re-called on the float arrays recorded from '
+                           'the wrappers, and with explicit Y0/X0/XY0/XX0/Ks arrays) and helpers on an 8-node weighted graph with an isolated node (and a variant with self-loops): '
+                           'every argument object is bit-identical (pickle / array bytes) before and after the call; the ODE and helper functions return identical values when called a second time on the same objects'))
+    return rep, util.native_replayer
